@@ -160,4 +160,22 @@ def getN (numEndpoints : Nat) (ring : List (Sec × List Nat)) (v n : Nat) : Get 
 def simpleGetN (len v n : Nat) : Get :=
   if len ≤ n then .insufficient else .node (((v + n) % 2 ^ 64) % len)
 
+/-- `strings.Compare(a.Address, b.Address) <= 0` on the bytes of the addresses -/
+def lexLe : List Nat → List Nat → Bool
+  | [], _ => true
+  | _ :: _, [] => false
+  | a :: as, b :: bs => if a < b then true else if b < a then false else lexLe as bs
+
+/-- `newSimpleHashring`: the endpoints (their addresses, as byte strings) sorted by address -/
+def simpleRing (addrs : List (List Nat)) : List (List Nat) := addrs.mergeSort lexLe
+
+/-- the address `simpleHashring.GetN` answers with -/
+def simpleGet (addrs : List (List Nat)) (v n : Nat) : Option (List Nat) :=
+  match simpleGetN addrs.length v n with
+  | .node i => (simpleRing addrs)[i]?
+  | _ => none
+
+/-- endpoint list in another order: `perm` lists, for every new position, the old position -/
+def permute {α : Type} (xs : List α) (perm : List Nat) : List α := perm.filterMap (xs[·]?)
+
 end Thanos.Hashring
